@@ -463,6 +463,7 @@ class OsrmStub:
       "nonjson"    200 with a body that is not JSON
       "nodurations" 200 {"code":"Ok"}
       "nulls"      rows of nulls
+      "nulldur_scalar_dist" 200 {"code":"Ok","durations":[null],"distances":5}
       "fewer"      answers only for the first half of the requested stops
       extras: "more" (one more column than asked, all small values), "hang" (read the request, reply nothing and keep the
       connection open until close() or `hang_seconds`), ("delay", seconds) healthy answer after a pause."""
@@ -657,6 +658,10 @@ class OsrmStub:
                 self._send(conn, "200 OK", b'{"code":"Ok"}')
             elif fault == "nodistances":
                 self._send(conn, "200 OK", json.dumps({"code": "Ok", "durations": [durs]}).encode())
+            elif fault == "nulldur_scalar_dist":
+                # entry 0 of durations is null and distances is not an array: the client's `&&` chain stops at
+                # `["durations"][0] != nullptr` and must not evaluate `["distances"][0]` (which would throw): empty list
+                self._send(conn, "200 OK", b'{"code":"Ok","durations":[null],"distances":5}')
             elif fault == "truncate":
                 self._send(conn, "200 OK", body, cut=len(body) // 2)
             elif fault in ("streamcut_str", "streamcut_key"):
